@@ -4,6 +4,7 @@ CONSTANTS Clients = {"A", "B"}
           LockBroken = TRUE
           IgnoreSideHashFailure = TRUE
           MaxOps = 4
+          UnlockBeforeCleanup = FALSE
 INVARIANTS InstalledIsComplete EmitViolations
 VIEW View
 CHECK_DEADLOCK FALSE
